@@ -89,7 +89,7 @@ cEdits == %s
     def drive(ip):
         i, part = ip
         tp = os.path.join(wd, "trace_%d.ndjson" % i)
-        return tp, run_drive("metaupdate", {"out": tp, "histories": part}, wd, tag=str(i))
+        return tp, run_drive("metaupdate", {"out": tp, "histories": part, "path_dir": wd, "path_every": 5 if t == "quick" else 11}, wd, tag=str(i))
 
     outs = parallel(drive, [(i, p) for i, p in enumerate(parts) if p], n=8)
     runs = sum(o[1]["runs"] for o in outs)
